@@ -504,35 +504,77 @@ impl Gen {
             self.feat("fn-def");
             return (Chain { pat: Some(Pat::Bind(name)), terms: vec![t] }, Ty::ok(), vec![], false);
         }
-        if !is_last && !tail && self.chance(1, 10) && !self.low() {
-            // scope probe: `{ v =x, w }` as a whole step — a single-branch block WITH a binding that
-            // shadows a visible variable; the outer variable must be untouched afterwards
+        if !is_last && !tail && self.chance(1, 8) && !self.low() {
+            // scope probe: a single-branch, `=>`-less block whose binding SHADOWS a visible variable; the
+            // outer variable must be untouched afterwards (the final observation reads it). Every
+            // binding form (in-chain match, chain binding, tuple-field binding, in-field match, nested
+            // block) × every placement the simplifier may strip (sole term of a step = "lifted",
+            // after another term of the chain = "spliced") × one or two steps.
             let outer: Vec<Var> = env.readable().into_iter().filter(|v| !v.ty.top_fn()).collect();
             if !outer.is_empty() {
                 let x = outer[self.rng.usize(outer.len())].clone();
                 let (v, vty) = self.gen_lit();
                 let (w, wty) = self.gen_lit();
                 if !wty.is_nil() && !vty.is_nil() {
-                    let mut steps = vec![Chain::new(vec![v, Term::Match(Pat::Bind(x.name.clone()))])];
-                    let ty = if self.chance(1, 2) {
-                        // read the shadowing binding inside
-                        steps.push(Chain::new(vec![Term::Tuple(
+                    let xn = x.name.clone();
+                    // spliced placement: a literal before the block; inside, `~` is that literal
+                    let spliced = self.chance(1, 2);
+                    let (lead, lty) = self.gen_lit();
+                    let spliced = spliced && !lty.is_nil();
+                    let (vt, vty) = if spliced && self.chance(1, 2) { (Term::Access(Src::Ripple, vec![]), lty.clone()) } else { (v, vty) };
+                    let form = self.rng.below(5);
+                    let bind_step: Chain = match form {
+                        0 => Chain::new(vec![vt.clone(), Term::Match(Pat::Bind(xn.clone()))]),
+                        1 => Chain { pat: Some(Pat::Bind(xn.clone())), terms: vec![vt.clone()] },
+                        2 => Chain::new(vec![Term::Tuple(
                             TupName::Anon,
-                            vec![
-                                Field::Val(None, Chain::new(vec![Term::Access(Src::Var(x.name.clone()), vec![])])),
-                                Field::Val(None, Chain::new(vec![w])),
-                            ],
-                        )]));
-                        Ty::Tup(None, vec![(None, vty), (None, wty)])
-                    } else {
-                        steps.push(Chain::new(vec![w]));
-                        wty
+                            vec![Field::Val(None, Chain { pat: Some(Pat::Bind(xn.clone())), terms: vec![vt.clone()] }), Field::Val(None, Chain::new(vec![w.clone()]))],
+                        )]),
+                        3 => Chain::new(vec![Term::Tuple(
+                            TupName::Anon,
+                            vec![Field::Val(None, Chain::new(vec![vt.clone(), Term::Match(Pat::Bind(xn.clone()))])), Field::Val(None, Chain::new(vec![w.clone()]))],
+                        )]),
+                        _ => Chain::new(vec![Term::Block(Expr {
+                            branches: vec![Branch { cond: vec![Chain::new(vec![vt.clone(), Term::Match(Pat::Bind(xn.clone()))])], cons: None }],
+                        })]),
+                    };
+                    let bind_ty = match form {
+                        2 | 3 => Ty::Tup(None, vec![(None, Ty::ok()), (None, wty.clone())]),
+                        _ => Ty::ok(),
+                    };
+                    let mut steps = vec![bind_step];
+                    let ty = match self.rng.below(3) {
+                        0 => bind_ty,
+                        1 if form != 4 => {
+                            // read the shadowing binding inside
+                            steps.push(Chain::new(vec![Term::Tuple(
+                                TupName::Anon,
+                                vec![Field::Val(None, Chain::new(vec![Term::Access(Src::Var(xn.clone()), vec![])])), Field::Val(None, Chain::new(vec![w]))],
+                            )]));
+                            Ty::Tup(None, vec![(None, vty), (None, wty)])
+                        }
+                        _ => {
+                            steps.push(Chain::new(vec![w]));
+                            wty
+                        }
                     };
                     self.feat("scope-probe-block-step");
-                    // the block is the step's ONLY term (that is what `normalize_blocks` may lift)
+                    self.feat(match (form, spliced) {
+                        (0, false) => "scope-probe-match-sole",
+                        (0, true) => "scope-probe-match-spliced",
+                        (1, false) => "scope-probe-chainbind-sole",
+                        (1, true) => "scope-probe-chainbind-spliced",
+                        (2, false) => "scope-probe-fieldbind-sole",
+                        (2, true) => "scope-probe-fieldbind-spliced",
+                        (3, false) => "scope-probe-fieldmatch-sole",
+                        (3, true) => "scope-probe-fieldmatch-spliced",
+                        (_, false) => "scope-probe-nested-sole",
+                        (_, true) => "scope-probe-nested-spliced",
+                    });
                     let blk = Term::Block(Expr { branches: vec![Branch { cond: steps, cons: None }] });
                     env.kill_pending();
-                    return (Chain::new(vec![blk]), ty, vec![], false);
+                    let terms = if spliced { vec![lead, blk] } else { vec![blk] };
+                    return (Chain::new(terms), ty, vec![], false);
                 }
             }
         }
@@ -907,6 +949,15 @@ impl Gen {
             env.kill_pending();
             let l = if labelled && (i == 0 || self.chance(3, 4)) { Some(labels[i].to_string()) } else { None };
             let ty = if ty.is_never() { Ty::Int } else { ty };
+            // a field-level binding `x = chain`: binds in the enclosing scope, the field is the verdict
+            if self.chance(1, 14) && !ty.contains_nil() && !ty.has_fn() && !matches!(terms.last(), Some(Term::Match(_))) {
+                let name = self.var_name(env, &[]);
+                env.bind(&name, ty.clone(), St::Definite);
+                self.feat("field-binding");
+                fields.push(Field::Val(l.clone(), Chain { pat: Some(Pat::Bind(name)), terms }));
+                ftys.push((l, Ty::ok()));
+                continue;
+            }
             fields.push(Field::Val(l.clone(), Chain::new(terms)));
             ftys.push((l, ty));
         }
@@ -975,17 +1026,56 @@ impl Gen {
             fields.push(Field::Val(label.clone(), Chain::new(ts)));
             set_or_append(ftys, label, ty);
         };
-        if !matches!(name, TupName::Inherit) && self.chance(1, 3) {
-            explicit(self, env, &mut fields, &mut ftys, &mut used_labels);
+        // arrangement: explicit fields and one or two spreads in ANY order (an inherited name needs the
+        // spread first); an explicit field written BEFORE a spread may carry a label the spread also has
+        // (the later source wins, the position is that of the first occurrence)
+        let second = if self.chance(1, 3) { Some(sources[self.rng.usize(sources.len())].clone()) } else { None };
+        let upcoming: Vec<String> = [Some(&first), second.as_ref()]
+            .into_iter()
+            .flatten()
+            .filter_map(|s| if let Ty::Tup(_, fs) = &s.1 { Some(fs.iter().filter_map(|f| f.0.clone()).collect::<Vec<_>>()) } else { None })
+            .flatten()
+            .collect();
+        let mut items: Vec<u8> = vec![1]; // 1 = first spread, 2 = second spread, 0 = explicit field
+        if second.is_some() {
+            items.push(2);
         }
-        add_spread(&first, &mut fields, &mut ftys, &mut inherited);
-        if self.chance(1, 3) {
-            let second = sources[self.rng.usize(sources.len())].clone();
-            add_spread(&second, &mut fields, &mut ftys, &mut inherited);
+        for _ in 0..self.rng.usize(3) {
+            items.push(0);
         }
-        let extra = self.rng.usize(3);
-        for _ in 0..extra {
-            explicit(self, env, &mut fields, &mut ftys, &mut used_labels);
+        if matches!(name, TupName::Inherit) {
+            let mut rest: Vec<u8> = items[1..].to_vec();
+            self.rng.shuffle(&mut rest);
+            items.truncate(1);
+            items.extend(rest);
+        } else {
+            self.rng.shuffle(&mut items);
+        }
+        for (k, it) in items.iter().enumerate() {
+            match it {
+                1 => add_spread(&first, &mut fields, &mut ftys, &mut inherited),
+                2 => add_spread(second.as_ref().unwrap(), &mut fields, &mut ftys, &mut inherited),
+                _ => {
+                    let spread_follows = items[k + 1..].iter().any(|j| *j != 0);
+                    if spread_follows && !upcoming.is_empty() && self.chance(2, 3) {
+                        // pre-seed the label choice with a label of an upcoming spread
+                        let cands: Vec<String> = upcoming.iter().filter(|l| !used_labels.contains(l)).cloned().collect();
+                        if !cands.is_empty() {
+                            let l = cands[self.rng.usize(cands.len())].clone();
+                            used_labels.push(l.clone());
+                            env.kill_pending();
+                            let (ts, ty, _) = self.gen_term(env, tin, d.saturating_sub(1), false, cx);
+                            env.kill_pending();
+                            let ty = if ty.is_never() { Ty::Int } else { ty };
+                            fields.push(Field::Val(Some(l.clone()), Chain::new(ts)));
+                            set_or_append(&mut ftys, Some(l), ty);
+                            self.feat("spread-explicit-before-same-label");
+                            continue;
+                        }
+                    }
+                    explicit(self, env, &mut fields, &mut ftys, &mut used_labels);
+                }
+            }
         }
         let n = match &name {
             TupName::Anon => None,
